@@ -251,8 +251,12 @@ theorem diffV_backed (cfg : DCfg) (al : Align) (hashOf : PyVal → String) :
           fun x hx => pairBasic_backed .list steps xs ys xs ys 0 0 (by intro k v hk; simpa using hk) (by intro k v hk; simpa using hk) x (hsub _ x hx)
         split at he
         · split at he
-          · exact h2 e he
-          · exact h1 e he
+          · split at he
+            · exact h2 e he
+            · exact h1 e he
+          · split at he
+            · exact h2 e he
+            · exact h1 e he
         · exact h1 e he
       · exact diffPairs_backed cfg al hashOf .list xs ys xs ys 0 steps ha hb (by intro k v hk; simpa using hk) (by intro k v hk; simpa using hk) e he hns
     | _ => all_goals (simp [diffV] at he; subst he; exact top_backed _ _ _ _ _)
@@ -270,8 +274,12 @@ theorem diffV_backed (cfg : DCfg) (al : Align) (hashOf : PyVal → String) :
           fun x hx => pairBasic_backed .tuple steps xs ys xs ys 0 0 (by intro k v hk; simpa using hk) (by intro k v hk; simpa using hk) x (hsub _ x hx)
         split at he
         · split at he
-          · exact h2 e he
-          · exact h1 e he
+          · split at he
+            · exact h2 e he
+            · exact h1 e he
+          · split at he
+            · exact h2 e he
+            · exact h1 e he
         · exact h1 e he
       · exact diffPairs_backed cfg al hashOf .tuple xs ys xs ys 0 steps ha hb (by intro k v hk; simpa using hk) (by intro k v hk; simpa using hk) e he hns
     | _ => all_goals (simp [diffV] at he; subst he; exact top_backed _ _ _ _ _)
